@@ -254,12 +254,66 @@ func (c *linCtx) lenOf(v ssa.Value, depth int) *linExpr {
 		return hi.sub(lo)
 	case *ssa.ChangeType:
 		return c.lenOf(x.X, depth)
+	case *ssa.UnOp:
+		// a local variable that is assigned once, before this load, and whose address goes nowhere a write
+		// could come from: the length is the length of what was stored
+		if st := soleStoreBefore(x); st != nil && depth < 8 {
+			return c.lenOf(st.Val, depth+1)
+		}
 	}
 	k := "len(" + c.valueKey(v) + ")"
 	c.atoms[k] = v
 	l := newLin(0)
 	l.terms[k] = big.NewRat(1, 1)
 	return l
+}
+
+// soleStoreBefore: ld loads a local variable (an Alloc, on the stack or escaping through a return only) that
+// has exactly one store, which dominates the load; every other use of the variable's address is a load, a
+// return or a debug reference.
+func soleStoreBefore(ld *ssa.UnOp) *ssa.Store {
+	if ld.Op != token.MUL {
+		return nil
+	}
+	al, ok := ld.X.(*ssa.Alloc)
+	if !ok || al.Referrers() == nil {
+		return nil
+	}
+	var st *ssa.Store
+	for _, ref := range *al.Referrers() {
+		switch r := ref.(type) {
+		case *ssa.Store:
+			if r.Addr != al || st != nil {
+				return nil
+			}
+			st = r
+		case *ssa.UnOp:
+			if r.Op != token.MUL {
+				return nil
+			}
+		case *ssa.Return, *ssa.DebugRef:
+		default:
+			return nil
+		}
+	}
+	if st == nil {
+		return nil
+	}
+	if st.Block() == ld.Block() {
+		for _, in := range st.Block().Instrs {
+			if in == ssa.Instruction(st) {
+				return st
+			}
+			if in == ssa.Instruction(ld) {
+				return nil
+			}
+		}
+		return nil
+	}
+	if dominates(st.Block(), ld.Block()) {
+		return st
+	}
+	return nil
 }
 
 func (c *linCtx) capOf(v ssa.Value, depth int) *linExpr {
@@ -303,29 +357,138 @@ func (c *linCtx) condFacts(cond ssa.Value, truth bool) {
 			c.condFacts(x.X, !truth)
 		}
 	case *ssa.BinOp:
-		if !isIntType(x.X.Type()) || !isIntType(x.Y.Type()) {
+		c.cmpFacts(x.Op, x.X, x.Y, truth)
+	case *ssa.Call:
+		// a condition written as a function of the module (func between(v, lo, hi) bool { return lo <= v && v <= hi }):
+		// the comparisons of its parameters that hold on every path returning this truth value
+		g := x.Call.StaticCallee()
+		if g == nil || x.Call.IsInvoke() || !inModule(g) || !simplePredicate(g) {
 			return
 		}
-		op := x.Op
-		if !truth {
-			op = negOp(op)
-		}
-		a, b := c.lin(x.X, 0), c.lin(x.Y, 0)
-		d := a.sub(b) // a - b
-		switch op {
-		case token.LSS: // a < b : a-b+1 <= 0
-			c.fact(d.addConst(1))
-		case token.LEQ:
-			c.fact(d)
-		case token.GTR: // a > b : b-a+1 <= 0
-			c.fact(b.sub(a).addConst(1))
-		case token.GEQ:
-			c.fact(b.sub(a))
-		case token.EQL:
-			c.fact(d)
-			c.fact(b.sub(a))
+		for _, lit := range predicateLiterals(g, truth) {
+			bo, ok := lit.cond.(*ssa.BinOp)
+			if !ok {
+				continue
+			}
+			a, okA := calleeOperand(g, bo.X, x.Call.Args)
+			b, okB := calleeOperand(g, bo.Y, x.Call.Args)
+			if okA && okB {
+				c.cmpFacts(bo.Op, a, b, lit.truth)
+			}
 		}
 	}
+}
+
+func (c *linCtx) cmpFacts(op token.Token, X, Y ssa.Value, truth bool) {
+	if !isIntType(X.Type()) || !isIntType(Y.Type()) {
+		return
+	}
+	if !truth {
+		op = negOp(op)
+	}
+	a, b := c.lin(X, 0), c.lin(Y, 0)
+	d := a.sub(b) // a - b
+	switch op {
+	case token.LSS: // a < b : a-b+1 <= 0
+		c.fact(d.addConst(1))
+	case token.LEQ:
+		c.fact(d)
+	case token.GTR: // a > b : b-a+1 <= 0
+		c.fact(b.sub(a).addConst(1))
+	case token.GEQ:
+		c.fact(b.sub(a))
+	case token.EQL:
+		c.fact(d)
+		c.fact(b.sub(a))
+	}
+}
+
+// calleeOperand: an operand of a comparison inside a simple predicate, as a value of the caller: a parameter is
+// the argument of the call, a constant is itself.
+func calleeOperand(g *ssa.Function, v ssa.Value, args []ssa.Value) (ssa.Value, bool) {
+	switch y := v.(type) {
+	case *ssa.Const:
+		return y, true
+	case *ssa.Parameter:
+		for i, prm := range g.Params {
+			if prm == y && i < len(args) {
+				return args[i], true
+			}
+		}
+	}
+	return nil, false
+}
+
+type predLiteral struct {
+	cond  ssa.Value
+	truth bool
+}
+
+// predicateLiterals: the branch conditions (with their truth) that hold on every path through the acyclic
+// body of g that returns want; the returned value itself is one of them when it is not a constant.
+func predicateLiterals(g *ssa.Function, want bool) []predLiteral {
+	var common map[predLiteral]bool
+	paths := 0
+	var walk func(b *ssa.BasicBlock, from *ssa.BasicBlock, lits []predLiteral, depth int)
+	walk = func(b *ssa.BasicBlock, from *ssa.BasicBlock, lits []predLiteral, depth int) {
+		if depth > 32 || paths > 64 {
+			paths = 1 << 20
+			return
+		}
+		switch t := b.Instrs[len(b.Instrs)-1].(type) {
+		case *ssa.If:
+			walk(b.Succs[0], b, append(append([]predLiteral{}, lits...), predLiteral{t.Cond, true}), depth+1)
+			walk(b.Succs[1], b, append(append([]predLiteral{}, lits...), predLiteral{t.Cond, false}), depth+1)
+		case *ssa.Jump:
+			walk(b.Succs[0], b, lits, depth+1)
+		case *ssa.Return:
+			if len(t.Results) != 1 {
+				paths = 1 << 20
+				return
+			}
+			v := t.Results[0]
+			if ph, ok := v.(*ssa.Phi); ok && ph.Block() == b && from != nil {
+				for i, pr := range b.Preds {
+					if pr == from {
+						v = ph.Edges[i]
+					}
+				}
+			}
+			if un, ok := v.(*ssa.UnOp); ok && un.Op == token.NOT {
+				lits = append(append([]predLiteral{}, lits...), predLiteral{un.X, !want})
+			} else if k, ok := v.(*ssa.Const); ok {
+				if k.Value == nil || constant.BoolVal(k.Value) != want {
+					return // this path returns the other value
+				}
+			} else {
+				lits = append(append([]predLiteral{}, lits...), predLiteral{v, want})
+			}
+			paths++
+			set := map[predLiteral]bool{}
+			for _, l := range lits {
+				set[l] = true
+			}
+			if common == nil {
+				common = set
+			} else {
+				for l := range common {
+					if !set[l] {
+						delete(common, l)
+					}
+				}
+			}
+		}
+	}
+	walk(g.Blocks[0], nil, nil, 0)
+	if paths == 0 || paths >= 1<<20 {
+		return nil
+	}
+	var out []predLiteral
+	for l := range common {
+		out = append(out, l)
+	}
+	sort.Slice(out, func(i, j int) bool { return out[i].cond.Name() < out[j].cond.Name() })
+	return out
 }
 
 // dominatingFacts: the branch conditions that dominate blk (in fn).
@@ -819,10 +982,17 @@ func (c *linCtx) entailsWith(goal *linExpr, extra []*linExpr) bool {
 
 var linBusy = 0
 
+// linSteps bounds the work of one top-level proof (nested entailment questions asked while collecting facts can
+// multiply): past the budget no further facts are collected, the goal stays unproven and the site is reported.
+var linSteps = 0
+
+const linBudget = 600
+
 func (c *linCtx) atomFactsGuarded(done map[string]bool) bool {
-	if linBusy > 24 {
+	if linBusy > 24 || linSteps > linBudget {
 		return false
 	}
+	linSteps++
 	linBusy++
 	defer func() { linBusy-- }()
 	return c.atomFacts(done)
@@ -907,6 +1077,7 @@ func infeasible(facts []*linExpr, goal *linExpr) bool {
 
 // proveIndexInBounds: 0 <= idx < len(base) at instruction in.
 func proveIndexInBounds(p *Program, in ssa.Instruction, base, idx ssa.Value) bool {
+	linSteps = 0
 	defer func() { recover() }()
 	c := &linCtx{p: p, fn: in.Parent(), atoms: map[string]ssa.Value{}, seenAt: map[string]bool{}}
 	c.dominatingFacts(in.Block())
@@ -919,7 +1090,21 @@ func proveIndexInBounds(p *Program, in ssa.Instruction, base, idx ssa.Value) boo
 }
 
 // proveSliceInBounds: 0 <= lo <= hi <= max <= cap(x) at the slice instruction.
+// proveLenAtLeast: len(v) >= n at instruction in.
+func proveLenAtLeast(p *Program, in ssa.Instruction, v ssa.Value, n int64) bool {
+	linSteps = 0
+	defer func() { recover() }()
+	c := &linCtx{p: p, fn: in.Parent(), atoms: map[string]ssa.Value{}, seenAt: map[string]bool{}}
+	c.dominatingFacts(in.Block())
+	ln := c.lenOf(v, 0)
+	if ln == nil {
+		return false
+	}
+	return c.entails(newLin(n).sub(ln))
+}
+
 func proveSliceInBounds(p *Program, x *ssa.Slice) bool {
+	linSteps = 0
 	defer func() { recover() }()
 	c := &linCtx{p: p, fn: x.Parent(), atoms: map[string]ssa.Value{}, seenAt: map[string]bool{}}
 	c.dominatingFacts(x.Block())
